@@ -54,7 +54,8 @@ Clause(e) ==
     [] e.op = "sub"               -> IvClause(e, ExpSub(PI(e), e.x), "C16.Shift")
     [] e.op = "mul"               -> IvClause(e, ExpMul(PI(e), Sc(e)), "C16.Mul")
     [] e.op = "div"               -> IF e.n = 0 THEN "driver/div-by-zero" ELSE IvClause(e, ExpDiv(PI(e), Sc(e)), "C16.Div")
-    [] e.op = "round"             -> IF e.n \notin Rounds THEN "driver/round-digits" ELSE IvClause(e, ExpRound(PI(e), e.n), "C16.Round")
+    [] e.op = "round"             -> IF e.digits \notin Rounds THEN "driver/round-digits"     \* digits: "None", "0", "1", "2"
+                                     ELSE IvClause(e, ExpRound(PI(e), e.digits), "C16.Round")
     [] e.op = "construct"         -> ConstructClause(e, ExpConstruct(e.s, e.e))
     [] e.op = "set_start"         -> ConstructClause(e, ExpConstruct(e.x, e.e))         \* I.start = x on [s, e]
     [] e.op = "set_end"           -> ConstructClause(e, ExpConstruct(e.s, e.x))         \* I.end = x on [s, e]
